@@ -242,9 +242,18 @@ def sig_of(p):
     return s
 
 
+def ensure_same_tree(*variants):
+    """All variants built from the SAME tree hash (the tree may be edited while a check runs: comparing builds of
+    two different trees would report their source difference as a violation)."""
+    for _ in range(4):
+        bs = [B.ensure(v) for v in variants]
+        if len({b.hash for b in bs}) == 1:
+            return bs
+    raise B.HarnessError("the tree under test keeps changing while variant builds are made; run again")
+
+
 def check_simplify(rep, tier, seed):
-    plain = B.ensure("plain")
-    nosimp = B.ensure("nosimp")
+    plain, nosimp = ensure_same_tree("plain", "nosimp")
     rep.builds.update(["plain", "nosimp"])
     progs = simplify_programs(tier, seed)
     exps = c03.expected_many([p.model_text() for p in progs])
@@ -351,8 +360,7 @@ def numeric_sources(rep):
 
 
 def check_cll(rep, tier, seed):
-    plain = B.ensure("plain")
-    cll = B.ensure("cll")
+    plain, cll = ensure_same_tree("plain", "cll")
     rep.builds.update(["plain", "cll"])
     for name, mod in numeric_sources(rep):
         rng = random.Random(seed * 7919 + 4)              # the same stream the property's own check uses
